@@ -64,7 +64,40 @@ struct CallRecord {
     is_slow: bool,
 }
 
+/// Trial calls admitted in the current half-open phase and not yet given back.
+#[derive(Default)]
+struct Trials {
+    phase: u64,
+    admitted: usize,
+}
+
+/// Held by a call admitted as a half-open trial. If the call is dropped before its
+/// outcome is recorded, the trial slot is handed back so that another trial can run.
+pub(crate) struct TrialGuard {
+    trials: std::sync::Arc<std::sync::Mutex<Trials>>,
+    phase: u64,
+    recorded: bool,
+}
+
+impl TrialGuard {
+    pub(crate) fn recorded(&mut self) {
+        self.recorded = true;
+    }
+}
+
+impl Drop for TrialGuard {
+    fn drop(&mut self) {
+        if !self.recorded {
+            let mut trials = self.trials.lock().unwrap_or_else(|e| e.into_inner());
+            if trials.phase == self.phase {
+                trials.admitted = trials.admitted.saturating_sub(1);
+            }
+        }
+    }
+}
+
 pub(crate) struct Circuit {
+    trials: std::sync::Arc<std::sync::Mutex<Trials>>,
     state: CircuitState,
     state_atomic: std::sync::Arc<AtomicU8>,
     last_state_change: std::time::Instant,
@@ -97,6 +130,7 @@ impl Circuit {
 
     pub(crate) fn new_with_atomic(state_atomic: std::sync::Arc<AtomicU8>) -> Self {
         Self {
+            trials: Default::default(),
             state: CircuitState::Closed,
             state_atomic,
             last_state_change: std::time::Instant::now(),
@@ -381,6 +415,7 @@ impl Circuit {
             CircuitState::Open => {
                 if self.last_state_change.elapsed() >= config.wait_duration_in_open {
                     self.transition_to(CircuitState::HalfOpen, config);
+                    self.trials.lock().unwrap_or_else(|e| e.into_inner()).admitted = 1;
                     config
                         .event_listeners
                         .emit(&CircuitBreakerEvent::CallPermitted {
@@ -400,8 +435,14 @@ impl Circuit {
                 }
             }
             CircuitState::HalfOpen => {
-                let permitted =
-                    self.success_count + self.failure_count < config.permitted_calls_in_half_open;
+                let permitted = {
+                    let mut trials = self.trials.lock().unwrap_or_else(|e| e.into_inner());
+                    let permitted = trials.admitted < config.permitted_calls_in_half_open;
+                    if permitted {
+                        trials.admitted += 1;
+                    }
+                    permitted
+                };
                 if permitted {
                     config
                         .event_listeners
@@ -496,6 +537,22 @@ impl Circuit {
         self.state_atomic.store(state as u8, Ordering::Release);
         self.last_state_change = std::time::Instant::now();
         self.clear_window();
+        let mut trials = self.trials.lock().unwrap_or_else(|e| e.into_inner());
+        trials.phase += 1;
+        trials.admitted = 0;
+    }
+
+    /// Guard for a call that has just been admitted while half-open.
+    pub(crate) fn trial_guard(&self) -> Option<TrialGuard> {
+        if self.state != CircuitState::HalfOpen {
+            return None;
+        }
+        let phase = self.trials.lock().unwrap_or_else(|e| e.into_inner()).phase;
+        Some(TrialGuard {
+            trials: std::sync::Arc::clone(&self.trials),
+            phase,
+            recorded: false,
+        })
     }
 
     fn evaluate_window<C>(&mut self, config: &CircuitBreakerConfig<C>) {
